@@ -10,13 +10,14 @@ Proof. reflexivity. Qed.
 (* reset(): a fresh epoch *)
 Lemma reset_inv : forall g s, inv g s -> inv ghost0 (tcp_reset s).
 Proof.
-  intros g s ((Hwf & Hcap & _) & _). unfold tcp_reset. split.
-  - unfold tx_inv. fld. unfold tx_inv_f, ghost0, g_una, g_budget, phase_ok, g_W.
-    cbn [g_iss g_stream g_acked g_phase g_flight g_fin g_hw rb_clear rb_len rb_cap].
-    split; [apply rb_clear_wf; exact Hwf|]. split; [exact Hcap|]. split; [lia|].
-    split; [reflexivity|]. split; [intros; lia|]. split; [reflexivity|]. split; [reflexivity|].
-    split; [lia|]. split; [lia|]. split; [auto|]. split; [unfold max_window; lia|exact I].
-  - unfold tm_inv, tm_inv_f. fld. unfold timer_new, ghost0. cbn. split; [discriminate|auto].
+  intros g s ((Hwf & Hcap & _) & _). change ghost0 with (g_fresh 0).
+  destruct (reset_fields s) as (R1 & R2 & R3 & R4 & R5 & R6 & R7).
+  destruct (reset_fields2 s) as (R8 & Rm).
+  revert R1 R2 R3 R4 R5 R6 R7 R8 Rm. generalize (tcp_reset s). intros s0 R1 R2 R3 R4 R5 R6 R7 R8 Rm.
+  apply fresh_inv; rewrite ?R1, ?R2, ?R3, ?R4, ?R5, ?R6, ?R7;
+    [apply rb_clear_wf; exact Hwf | exact Hcap | reflexivity | split; [apply Z.le_refl|reflexivity]
+    | reflexivity | reflexivity | unfold max_window; split; [apply Z.le_refl|discriminate]
+    | exact I | exact I | discriminate | exact R8 | exact Rm].
 Qed.
 
 Lemma reset_txv_fields : forall s,
@@ -31,12 +32,14 @@ Lemma inv_set_state : forall g g' s st',
   g_phase g' = g_phase g -> g_flight g' = g_flight g -> g_hw g' = g_hw g ->
   (g_fin g = true -> g_fin g' = true) ->
   phase_ok g' st' (rb_len (s_tx_buffer s)) (s_syn_unacked_in_fin_wait s) ->
+  st' <> Listen ->
   inv g' (upd_state s st').
 Proof.
-  intros g g' s st' ((H1 & H2 & H3 & H4 & H5 & H6 & H7 & H8 & H9 & H10 & H11) & (T1 & T2))
-         E1 E2 E3 E4 E5 E6 E7 Hph.
+  intros g g' s st' ((H1 & H2 & H3 & H4 & H5 & H6 & H7 & H8 & H9 & H10 & H11) & (T1 & T2) &
+                     (K1 & K2 & K3 & K4))
+         E1 E2 E3 E4 E5 E6 E7 Hph Hnl.
   assert (Eu : g_una g' = g_una g) by (unfold g_una; rewrite E3, E4; reflexivity).
-  split.
+  split; [|split].
   - unfold tx_inv. fld. unfold tx_inv_f. rewrite Eu, E1, E2, E3, E5, E6.
     split; [exact H1|]. split; [exact H2|]. split; [exact H3|]. split; [exact H4|].
     split; [intros i Hi; rewrite H5 by exact Hi; unfold g_W; rewrite E2; reflexivity|].
@@ -47,6 +50,11 @@ Proof.
       destruct (g_fin g'); cbn [b2z] in *; lia. }
     split; [exact H9|]. split; [exact Hph|]. exact H11.
   - unfold tm_inv, tm_inv_f in *. fld. rewrite E5. auto.
+  - unfold kinv. fld. rewrite E1, E2, E6.
+    split.
+    { destruct (g_fin g) eqn:F; [rewrite (E7 eq_refl); exact K1|].
+      destruct (g_fin g'); cbn [b2z] in *; lia. }
+    split; [exact K2|]. split; [exact K3|]. intros X. congruence.
 Qed.
 
 Definition g_set_fin (g : ghost) : ghost :=
@@ -70,10 +78,10 @@ Proof.
   - exists g. split; [|split; [apply same_epoch_refl|auto]].
     exact Hinv.
   - exists g. split; [|split; [apply same_epoch_refl|auto]].
-    unfold tcp_set_state. eapply (inv_set_state g g); try reflexivity; try exact Hinv; auto.
+    unfold tcp_set_state. eapply (inv_set_state g g); try reflexivity; try exact Hinv; auto; try discriminate.
     apply (phase_ok_closed g Listen _ (s_syn_unacked_in_fin_wait s)). unfold phase_ok. exact Hph.
   - exists g. split; [|split; [apply same_epoch_refl|auto]].
-    unfold tcp_set_state. eapply (inv_set_state g g); try reflexivity; try exact Hinv; auto.
+    unfold tcp_set_state. eapply (inv_set_state g g); try reflexivity; try exact Hinv; auto; try discriminate.
     apply (phase_ok_closed g SynSent _ (s_syn_unacked_in_fin_wait s)). unfold phase_ok. exact Hph.
   - (* SYN-RECEIVED: FIN-WAIT-1 with the SYN|ACK still unacknowledged *)
     exists (g_set_fin g). split; [|split; [apply same_epoch_set_fin|auto]].
@@ -84,12 +92,12 @@ Proof.
       split; [|exact Htm]. unfold tx_inv. fld. unfold tx_inv_f.
       repeat (split; [assumption|]). split; [|exact H11].
       unfold phase_ok. rewrite P, Est. exact Hph. }
-    eapply (inv_set_state g (g_set_fin g)); try reflexivity; try exact Hinv'; auto.
+    eapply (inv_set_state g (g_set_fin g)); try reflexivity; try exact Hinv'; auto; try discriminate.
     fld. unfold phase_ok, g_set_fin. cbn [g_phase g_acked g_fin g_flight].
     destruct (g_phase g); intuition auto.
   - (* ESTABLISHED *)
     exists (g_set_fin g). split; [|split; [apply same_epoch_set_fin|auto]].
-    unfold tcp_set_state. eapply (inv_set_state g (g_set_fin g)); try reflexivity; try exact Hinv; auto.
+    unfold tcp_set_state. eapply (inv_set_state g (g_set_fin g)); try reflexivity; try exact Hinv; auto; try discriminate.
     unfold phase_ok, g_set_fin. cbn [g_phase g_acked g_fin g_flight].
     destruct (g_phase g); intuition auto.
   - exists g. split; [|split; [apply same_epoch_refl|auto]].
@@ -98,7 +106,7 @@ Proof.
     exact Hinv.
   - (* CLOSE-WAIT *)
     exists (g_set_fin g). split; [|split; [apply same_epoch_set_fin|auto]].
-    unfold tcp_set_state. eapply (inv_set_state g (g_set_fin g)); try reflexivity; try exact Hinv; auto.
+    unfold tcp_set_state. eapply (inv_set_state g (g_set_fin g)); try reflexivity; try exact Hinv; auto; try discriminate.
     unfold phase_ok, g_set_fin. cbn [g_phase g_acked g_fin g_flight].
     destruct (g_phase g); intuition auto.
   - exists g. split; [|split; [apply same_epoch_refl|auto]].
@@ -112,7 +120,7 @@ Qed.
 Lemma abort_inv : forall g s, inv g s -> inv g (tcp_abort s).
 Proof.
   intros g s Hinv. pose proof Hinv as ((_ & _ & _ & _ & _ & _ & _ & _ & _ & Hph & _) & _).
-  unfold tcp_abort, tcp_set_state. eapply (inv_set_state g g); try reflexivity; try exact Hinv; auto.
+  unfold tcp_abort, tcp_set_state. eapply (inv_set_state g g); try reflexivity; try exact Hinv; auto; try discriminate.
   eapply phase_ok_closed. exact Hph.
 Qed.
 
@@ -127,11 +135,12 @@ Proof.
   - injection H as <-. exists (g_fresh 0). split; [|apply new_epoch_fresh].
     destruct Hinv as ((Hwf & Hcap & _) & _).
     destruct (reset_fields s) as (R1 & R2 & R3 & R4 & R5 & R6 & R7).
-    revert R1 R2 R3 R4 R5 R6 R7. generalize (tcp_reset s). intros s0 R1 R2 R3 R4 R5 R6 R7.
+    destruct (reset_fields2 s) as (R8 & Rm).
+    revert R1 R2 R3 R4 R5 R6 R7 R8 Rm. generalize (tcp_reset s). intros s0 R1 R2 R3 R4 R5 R6 R7 R8 Rm.
     apply fresh_inv; unfold tcp_set_state; fld; rewrite ?R1, ?R2, ?R3, ?R4, ?R5, ?R6;
       [apply rb_clear_wf; exact Hwf | exact Hcap | reflexivity | split; [apply Z.le_refl|reflexivity]
       | reflexivity | reflexivity | unfold max_window; split; [apply Z.le_refl|discriminate]
-      | exact I | exact I | discriminate].
+      | exact I | exact I | discriminate | exact R8 | exact Rm].
 Qed.
 
 Lemma connect_inv : forall cx g s ra rp lep s', inv g s -> ctx_ok cx ->
@@ -145,12 +154,27 @@ Proof.
   injection H as <-.
   destruct Hinv as ((Hwf & Hcap & _) & _).
   destruct (reset_fields s) as (R1 & R2 & R3 & R4 & R5 & R6 & R7).
-  revert R1 R2 R3 R4 R5 R6 R7. generalize (tcp_reset s). intros s0 R1 R2 R3 R4 R5 R6 R7.
+  destruct (reset_fields2 s) as (R8 & Rm).
+  revert R1 R2 R3 R4 R5 R6 R7 R8 Rm. generalize (tcp_reset s). intros s0 R1 R2 R3 R4 R5 R6 R7 R8 Rm.
   split; [|unfold tcp_set_state; fld; reflexivity].
   apply fresh_inv; unfold tcp_set_state; fld; rewrite ?R1, ?R2, ?R3, ?R4, ?R5, ?R6;
     [apply rb_clear_wf; exact Hwf | exact Hcap | reflexivity | exact Hisn
     | reflexivity | reflexivity | unfold max_window; split; [apply Z.le_refl|discriminate]
-    | exact I | exact I | discriminate].
+    | exact I | exact I | discriminate | exact R8 | exact Rm].
+Qed.
+
+Lemma send_kinv : forall g s more s0,
+  kinv g s -> tx_inv (g_send g more) s0 ->
+  rt_max_seq_sent (s_rtte s0) = rt_max_seq_sent (s_rtte s) -> s_remote_mss s0 = s_remote_mss s ->
+  s_state s0 = s_state s -> s_state s <> Listen ->
+  kinv (g_send g more) s0.
+Proof.
+  intros g s more s0 Hk Htx Em Es Est Hnl.
+  eapply (kinv_step g s _ s0 more); [exact Hk|exact Htx|reflexivity|reflexivity|auto| | |exact Em| |].
+  - cbn [g_send g_hw]. lia.
+  - cbn [g_send g_hw]. lia.
+  - rewrite Es. destruct Hk as (_ & _ & K3 & _). exact K3.
+  - intros X. congruence.
 Qed.
 
 (* send_slice appends exactly the accepted prefix to the stream *)
@@ -158,10 +182,11 @@ Lemma send_inv : forall g s data s' n, inv g s -> tcp_send_slice s data = Ok (s'
   inv (g_send g (l_take n data)) s' /\ 0 <= n <= l_len data /\
   rb_len (s_tx_buffer s') = rb_len (s_tx_buffer s) + n /\ tcp_may_send s = true.
 Proof.
-  intros g s data s' n (Htx & Htm) H. unfold tcp_send_slice in H.
+  intros g s data s' n (Htx & Htm & Hk) H. unfold tcp_send_slice in H.
   destruct (tcp_may_send s) eqn:Hms; cbn [negb] in H; [|discriminate].
   destruct (rb_enqueue_slice (s_tx_buffer s) data) as [tx' sz] eqn:E.
   assert (Hst : tcp_may_send_st (s_state s) = true) by exact Hms.
+  assert (Hnl : s_state s <> Listen) by (intro X; rewrite X in Hst; discriminate).
   destruct (send_step_inv _ _ _ _ _ _ _ _ _ _ _ Htx Hst E) as (Hinv' & Hn & Hlen).
   pose proof Htx as (Hwf & _ & _ & _ & _ & _ & _ & Hf & _ & Hph & _).
   pose proof Hwf as (Hl0 & _).
@@ -173,24 +198,40 @@ Proof.
     - destruct (s_state s); cbn in Hst; try discriminate.
       + destruct Hph as (G & _). rewrite G in Hf. cbn [b2z] in Hf. lia.
       + rewrite Hph in Hf. cbn [b2z] in Hf. lia. }
-  assert (Hbase : forall s0, txv s0 = txv (upd_tx_buffer s tx') -> n = sz ->
+  assert (Hbase : forall s0 tm, txv s0 = txv (upd_timer (upd_tx_buffer s tx') tm) -> n = sz ->
+                  (tm = s_timer s \/ (s_remote_win_len s = 0 /\ timer_is_zero_window_probe tm = true /\
+                                      timer_is_idle tm = false)) ->
                   inv (g_send g (l_take n data)) s0).
-  { intros s0 E0 ->. destruct (txv_proj _ _ E0) as (B1 & B2 & B3 & B4 & B5 & B6 & B7 & _ & _ & B10).
-    fld_in B1. fld_in B2. fld_in B3. fld_in B4. fld_in B5. fld_in B6. fld_in B7. fld_in B10.
-    split.
-    - unfold tx_inv. rewrite B1, B2, B3, B4, B5, B6, B10. exact Hinv'.
+  { intros s0 tm E0 -> Htmc.
+    destruct (txv_proj _ _ E0) as (B1 & B2 & B3 & B4 & B5 & B6 & B7 & B8 & _ & B10).
+    pose proof (txv_msx _ _ E0) as B11.
+    fld_in B1. fld_in B2. fld_in B3. fld_in B4. fld_in B5. fld_in B6. fld_in B7. fld_in B8. fld_in B10.
+    fld_in B11.
+    assert (Ht0 : tx_inv (g_send g (l_take sz data)) s0).
+    { unfold tx_inv. rewrite B1, B2, B3, B4, B5, B6, B10. exact Hinv'. }
+    split; [exact Ht0|]. split.
     - unfold tm_inv, tm_inv_f. rewrite B2, B5, B7. cbn [g_send g_flight].
-      destruct Htm as (T1 & T2). split; [exact T1|]. intros Hi. left. auto. }
+      destruct Htm as (T1 & T2). destruct Htmc as [->|(W0 & Z1 & Z2)].
+      + split; [exact T1|]. intros Hi. left. auto.
+      + split; [intros _; exact W0|rewrite Z2; discriminate].
+    - eapply send_kinv; eassumption. }
   fld_in H. destruct (Z.gtb_spec sz 0).
   2: { injection H as <- <-. split; [|split; [exact Hn|split; [fld; exact Hlen|reflexivity]]].
-       apply Hbase; reflexivity. }
+       apply (Hbase _ (s_timer s)); [reflexivity|reflexivity|left; reflexivity]. }
   destruct (rb_len (s_tx_buffer s) =? 0); fld_in H;
   (destruct ((s_remote_win_len s =? 0) && timer_is_idle (s_timer s)) eqn:Ez; injection H as <- <-;
    (split; [|split; [exact Hn|split; [fld; exact Hlen|reflexivity]]]);
    [ apply andb_prop in Ez; destruct Ez as (Ew & Ei); apply Z.eqb_eq in Ew;
-     split;
-     [ unfold tx_inv; fld; exact Hinv'
-     | unfold tm_inv, tm_inv_f; cbn [g_send g_flight]; fld;
-       split; [intros _; exact Ew|unfold timer_set_for_zero_window_probe; cbn; discriminate] ]
-   | apply Hbase; reflexivity ]).
+     eapply Hbase; [reflexivity|reflexivity|right; split; [exact Ew|split; reflexivity]]
+   | apply (Hbase _ (s_timer s)); [reflexivity|reflexivity|left; reflexivity] ]).
+Qed.
+
+(* set_keep_alive: an idle timer stays idle *)
+Lemma set_keep_alive_inv : forall g s d, inv g s -> inv g (tcp_set_keep_alive s d).
+Proof.
+  intros g s d Hinv. unfold tcp_set_keep_alive.
+  destruct (is_some d); [|eapply inv_txv; [|exact Hinv]; reflexivity].
+  destruct Hinv as (Htx & Htm & Hk). split; [unfold tx_inv; fld; exact Htx|]. split.
+  - unfold tm_inv, tm_inv_f in *. fld. destruct (s_timer s) as [[k|]| | | |]; exact Htm.
+  - eapply kinv_fields; [exact Hk|reflexivity|reflexivity|auto].
 Qed.
